@@ -894,8 +894,8 @@ impl Engine for C20 {
     }
     fn n_cases(&self, tier: Tier) -> u64 {
         match tier {
-            Tier::Quick => 30_000,
-            Tier::Thorough => 1_000_000,
+            Tier::Quick => 150_000,
+            Tier::Thorough => 4_000_000,
         }
     }
     fn run_case(&self, k: u64, seed: u64, _tier: Tier, stats: &mut Stats) -> Vec<Violation> {
